@@ -10,6 +10,7 @@ from ..core import Clause, Violation
 from ..ref import queries as R
 
 META = {
+    "thorough_scale": 3,
     "level": "exploration",
     "rule": (
         "SimTTY: the library talks to a real pty whose master side is a scripted terminal; time is virtual "
